@@ -382,9 +382,66 @@ def normalise_renames(facts):
     return ren
 
 
+def normalise_field_renames(facts):
+    """A field of a pinned struct that was only renamed keeps its pinned name for the rules: when a pinned field name is gone from the
+    struct and exactly one new field of the struct has the type the old one had, every place / aggregate / struct record that
+    mentions the new name is rewritten.  Returns {(struct, pinned name): new name}."""
+    try:
+        with open(os.path.join(os.path.dirname(os.path.dirname(os.path.abspath(__file__))), "tables", "pinned_fns.json")) as fh:
+            pinned = json.load(fh).get("fields", {})
+    except Exception:
+        return {}
+    ren = {}
+    for d in facts:
+        pre = "bin/" if d["_target"] == "bin" else ""
+        for a in d["adts"]:
+            pf = pinned.get(pre + a["key"])
+            if not pf or len(a["variants"]) != 1:
+                continue
+            now = [(f["name"], f["ty"]) for f in a["variants"][0]["fields"]]
+            now_names = set(n for n, _ in now)
+            old_names = set(n for n, _ in pf)
+            missing = [(n, t) for n, t in pf if n not in now_names]
+            fresh = [(n, t) for n, t in now if n not in old_names]
+            for n_old, t_old in missing:
+                cs = [n for n, t in fresh if t == t_old]
+                if len(cs) == 1 and len([1 for n2, t2 in missing if t2 == t_old]) == 1:
+                    ren[(pre + a["key"], n_old)] = cs[0]
+    if not ren:
+        return {}
+    by_new = {}
+    for (adt, n_old), n_new in ren.items():
+        by_new[(adt.replace("bin/", ""), n_new)] = n_old
+
+    def walk(x, pre):
+        if isinstance(x, dict):
+            adt = x.get("adt")
+            if adt and isinstance(x.get("n"), str) and (adt, x["n"]) in by_new:
+                x["n"] = by_new[(adt, x["n"])]
+            if adt and isinstance(x.get("fields"), list) and x.get("k") == "aggr":
+                x["fields"] = [by_new.get((adt, f_), f_) if isinstance(f_, str) else f_ for f_ in x["fields"]]
+            for v in x.values():
+                if isinstance(v, (dict, list)):
+                    walk(v, pre)
+        elif isinstance(x, list):
+            for v in x:
+                if isinstance(v, (dict, list)):
+                    walk(v, pre)
+
+    for d in facts:
+        walk(d["fns"], "")
+        for a in d["adts"]:
+            for v in a["variants"]:
+                for f in v["fields"]:
+                    if (a["key"], f["name"]) in by_new:
+                        f["name"] = by_new[(a["key"], f["name"])]
+    return ren
+
+
 class Prog:
     def __init__(self, facts):
         self.renames = normalise_renames(facts)
+        self.field_renames = normalise_field_renames(facts)
         self.fns = {}
         self.adts = {}
         self.impls = []
